@@ -10,6 +10,7 @@ def plan(tier, seed):
         conds.append(Cond("havoc-%03d_%03d" % (lo, hi), "harness/c13.py", "havoc",
                           env={"C13_LO": lo, "C13_HI": hi}, timeout=280 if q else 1200))
     conds.append(Cond("factory-havoc", "harness/c13.py", "fhavoc", timeout=280 if q else 900))
+    conds.append(Cond("loader-havoc", "harness/c13.py", "fload", timeout=280 if q else 900))
     conds.append(Cond("factory-havoc-vacuity", "harness/c13.py", "fhavoc", timeout=90, vacuity=True))
     conds.append(Cond("havoc-vacuity", "harness/c13.py", "havoc", env={"C13_LO": 0, "C13_HI": 3}, timeout=90, vacuity=True))
     meta = dict(functions=PARSER_FUNCS + ["sievelib.parser.Parser.__reset_parser", "sievelib.commands.Command.tosieve",
@@ -23,6 +24,8 @@ def plan(tier, seed):
                          "junk values larger than the bounds", "scripts outside the corpus"],
                 assumptions=["inductive reading: independence from an arbitrary pre-state implies independence from every "
                              "history; the list of state attributes is re-derived from the AST of parser.py on every run",
-                             "expected outcomes come from a pristine Parser in the same process with an empty global list"],
+                             "a parse may not change the commands module's shared definitions (argument tables, class attributes): compared "
+                             "before/after every parse of the corpus -- with that invariant the havocked attributes are the only "
+                             "state a history can leave behind", "expected outcomes come from a pristine Parser in the same process with an empty global list"],
                 stubs=["LazyExtSet for RequireCommand.loaded_extensions"])
     return dict(conds=conds, meta=meta)
